@@ -4,10 +4,11 @@ import ConduitModel.Driver.Prov
 /-
 Driver component `live` (C16): chain of steps, `;`-separated:
   imp <cfg> [!k] | ss <id> <pos> | st <id> <status>            (as component `import`)
-  live <cfg> <allow> <stale> <stopOk> <startOk> <reconf|-> [!k]
+  live <cfg> <allow> <stale> <stopOk> <startOk> <reconf|-> [flip] [!k]
       ApplyPlanLive(cfg, hash, allow): `stale` = present a wrong hash; lifecycle outcomes scripted:
       StopAndWait / Start succeed iff 1; reconf = comma list per ReconfigureProcessor call
-      (0 ok, 1 not-live-reconfigurable, 2 error)
+      (0 ok, 1 not-live-reconfigurable, 2 error); `flip` = an external Start sets the pipeline
+      running between ApplyPlanLive's first status read and its re-read
 Output per live step: <class>#<event log>#<Export after>#<observe>.
 -/
 namespace Conduit.Driver
@@ -21,14 +22,16 @@ def parseBool (s : String) : Option Bool := if s = "1" then some true else if s 
 
 def parseLStep (s : String) : Option LStep :=
   match words s with
-  | "live" :: c :: a :: st :: so :: sa :: rc :: rest => do
+  | "live" :: c :: a :: st :: so :: sa :: rc :: rest0 => do
+    let flip := rest0.head? = some "flip"
+    let rest := if flip then rest0.drop 1 else rest0
     let k ← match rest with
       | [] => some none
       | [k] => if k.startsWith "!" then (k.drop 1).toString.toNat?.map (fun n => if n = 0 then none else some n) else none
       | _ => none
     let script ← if rc = "-" then some [] else (rc.splitOn ",").mapM String.toNat?
     pure (.live (← parseCfg c) (← parseBool a) (← parseBool st)
-      { stopOk := ← parseBool so, startOk := ← parseBool sa, reconf := script } k)
+      { stopOk := ← parseBool so, startOk := ← parseBool sa, reconf := script, becomesRunning := flip } k)
   | _ => (parsePStep s).map .p
 
 def liveRun (v : Variant) : St → Nat → List LStep → List String → Option String → List String × Option String
